@@ -2,7 +2,7 @@
     (instantiated at the regenerated [gen_cache_facts] in PropsC19.v). *)
 From Coq Require Import List NArith ZArith Bool Arith Lia Ascii String.
 From MxlBase Require Import ListX.
-From CacheFS Require Import CacheKeys CacheFS CacheFSSpec ExpectedFacts CacheKeysProofs CacheFSProofs.
+From CacheFS Require Import CacheKeys CacheFS CacheFSSpec ExpectedFacts CacheKeysProofs CacheFSProofs CacheSessionProofs.
 Import ListNotations.
 
 
@@ -170,17 +170,18 @@ Qed.
 
 (** pairwise different keys of the universe get pairwise different file names under the repaired
     default name function *)
-Lemma names_distinct_of_keys sh salt (keyof : N -> key) (items : list (N * N)) :
+Lemma names_distinct_of_keys kind sh salt (keyof : N -> key) (items : list (N * N)) :
+  kind = NameRepr \/ kind = NameReprEsc ->
   (forall kx, In kx items -> wf_key (keyof (fst kx)) = true) ->
   NoDup (map (fun kx => keyof (fst kx)) items) ->
-  names_distinct (name_id NameRepr sh salt keyof) items.
+  names_distinct (name_id kind sh salt keyof) items.
 Proof.
-  unfold names_distinct. induction items as [|a items IH]; cbn [map]; intros W ND.
+  intros Hkind. unfold names_distinct. induction items as [|a items IH]; cbn [map]; intros W ND.
   - constructor.
   - inversion ND as [|? ? Hnin ND']; subst. constructor.
     + intros Hin. apply in_map_iff in Hin. destruct Hin as (b & Eb & Hb).
       apply Hnin. apply in_map_iff. exists b. split; [|exact Hb].
-      apply (name_id_repr_inj sh salt keyof); try exact Eb; apply W; [right; exact Hb | left; reflexivity].
+      apply (name_id_safe_inj kind sh salt keyof _ _ Hkind); try exact Eb; apply W; [right; exact Hb | left; reflexivity].
     + apply IH; [|exact ND']. intros kx Hkx. apply W. right. exact Hkx.
 Qed.
 
@@ -198,7 +199,7 @@ Section NameProps.
 
   (** FULL transparency statement for the repaired names *)
   Lemma transparent_repr :
-    cf_name facts = NameRepr ->
+    cf_name facts = NameRepr \/ cf_name facts = NameReprEsc ->
     forall pol items p sh salt,
       (forall kx, In kx items -> wf_key (keyof (fst kx)) = true) ->
       NoDup (map (fun kx => keyof (fst kx)) items) ->
@@ -211,8 +212,8 @@ Section NameProps.
            let st := exec V name fnv size pol (cf_save facts) p items sched (init items fs_empty) in
            all_done st = true -> collect items (s_pcs st) = Some (run_uncached V fnv items).
   Proof.
-    intros Hn pol items p sh salt W ND name. subst name. rewrite Hn.
-    pose proof (names_distinct_of_keys sh salt keyof items W ND) as Hnd.
+    intros Hn pol items p sh salt W ND name. subst name.
+    pose proof (names_distinct_of_keys (cf_name facts) sh salt keyof items Hn W ND) as Hnd.
     split; [|split].
     - apply (run_seq_correct V _ fnv size pol _ Hsave items fs_empty p Hnd (good_empty V _ fnv size items)).
     - apply (run_par_correct V _ fnv size pol _ Hsave items fs_empty p Hnd (good_empty V _ fnv size items)).
@@ -224,7 +225,7 @@ Section NameProps.
   (** a rerun in a NEW INTERPRETER (other process id, other string-hash salt, other flush policy)
       finds every result of a complete first run: names do not depend on the process *)
   Lemma new_interpreter_rerun_hits_disk_gen :
-    cf_name facts = NameStr \/ cf_name facts = NameRepr ->
+    cf_name facts = NameStr \/ cf_name facts = NameRepr \/ cf_name facts = NameReprEsc ->
     forall pol1 pol2 items p1 p2 sh1 sh2 salt1 salt2 sched1,
       let name1 := name_id (cf_name facts) sh1 salt1 keyof in
       let name2 := name_id (cf_name facts) sh2 salt2 keyof in
@@ -238,7 +239,7 @@ Section NameProps.
   Proof.
     intros Hk pol1 pol2 items p1 p2 sh1 sh2 salt1 salt2 sched1 name1 name2 Hnd st1 Hd sched2.
     assert (E : name2 = name1).
-    { subst name1 name2. destruct Hk as [Hk|Hk]; rewrite Hk; reflexivity. }
+    { subst name1 name2. destruct Hk as [Hk|[Hk|Hk]]; rewrite Hk; reflexivity. }
     rewrite E. apply cached_run_no_recompute.
     apply (complete_run_correct V name1 fnv size pol1 _ Hsave items fs_empty p1 sched1 Hnd
              (good_empty V name1 fnv size items) Hd).
@@ -246,7 +247,8 @@ Section NameProps.
 End NameProps.
 
 (** whichever of the two name functions ExpectedFacts.v expects, it ignores the process *)
-Lemma expected_name_ok : C19_expected_name = NameStr \/ C19_expected_name = NameRepr.
+Lemma expected_name_ok :
+  C19_expected_name = NameStr \/ C19_expected_name = NameRepr \/ C19_expected_name = NameReprEsc.
 Proof. unfold C19_expected_name. auto. Qed.
 
 Lemma names_process_independent facts :
@@ -273,7 +275,7 @@ Qed.
 
 Lemma transparent_repr_tree V keyof fnv size facts :
   facts = expected_facts ->
-  cf_name facts = NameRepr ->
+  cf_name facts = NameRepr \/ cf_name facts = NameReprEsc ->
   forall pol items p sh salt,
     (forall kx, In kx items -> wf_key (keyof (fst kx)) = true) ->
     NoDup (map (fun kx => keyof (fst kx)) items) ->
@@ -286,6 +288,36 @@ Lemma transparent_repr_tree V keyof fnv size facts :
          let st := exec V name fnv size pol (cf_save facts) p items sched (init items fs_empty) in
          all_done st = true -> collect items (s_pcs st) = Some (run_uncached V fnv items).
 Proof. intros ->. apply transparent_repr. reflexivity. Qed.
+
+(** one run of a SESSION with the tree's save protocol (CacheSessionProofs.v) *)
+Lemma session_step_tree V name fnv size facts :
+  facts = expected_facts ->
+  forall pol all items f0 p sched,
+    names_distinct name all -> incl items all -> names_distinct name items ->
+    Good V name fnv size all f0 ->
+    let st := exec V name fnv size pol (cf_save facts) p items sched (init items f0) in
+    all_done st = true ->
+    collect items (s_pcs st) = Some (run_uncached V fnv items)
+    /\ s_calls st = N.of_nat (length (missing V name items f0))
+    /\ AllCached V name fnv size items (s_fs st)
+    /\ (forall k x, In (k, x) all -> f0 (Final (name k)) = whole V fnv size x -> s_fs st (Final (name k)) = whole V fnv size x)
+    /\ (forall n, ~ In n (map (fun kx => name (fst kx)) items) -> s_fs st (Final n) = f0 (Final n))
+    /\ Good V name fnv size all (s_fs st).
+Proof. intros ->. exact (session_step V name fnv size). Qed.
+
+Lemma growing_key_set_tree V name fnv size facts :
+  facts = expected_facts ->
+  forall pol1 pol2 A B p1 p2 sched1 sched2,
+    names_distinct name (A ++ B) ->
+    let st1 := exec V name fnv size pol1 (cf_save facts) p1 A sched1 (init A fs_empty) in
+    all_done st1 = true ->
+    let st2 := exec V name fnv size pol2 (cf_save facts) p2 (A ++ B) sched2 (init (A ++ B) (s_fs st1)) in
+    all_done st2 = true ->
+    collect A (s_pcs st1) = Some (run_uncached V fnv A)
+    /\ s_calls st1 = N.of_nat (length A)
+    /\ collect (A ++ B) (s_pcs st2) = Some (run_uncached V fnv (A ++ B))
+    /\ s_calls st2 = N.of_nat (length B).
+Proof. intros ->. exact (growing_key_set V name fnv size). Qed.
 
 (** REGRESSION / the finding while the tree still carries f"{k}.p": the int 1 and the str "1" are
     different keys of the universe with one file name; the second is answered with the first one's
